@@ -45,9 +45,23 @@ def main(chk, pid, tier, seed, replay):
     workers = 4
     env0 = chk.env_base()
     fdir = os.path.join(chk.ROOT, "featprobe")
+    # rare-event inputs from the corpora (offline SHAKE searches): key seeds and signature tuples
+    rare_path = os.path.join(chk.WORK, "featprobe_rare.txt")
+    n_rare = 0
+    with open(rare_path, "w") as rf:
+        for s in (44, 65, 87):
+            for kind, sub in (("K", "xof_extremes"), ("S", "sig_extremes")):
+                f = os.path.join(chk.ROOT, "corpus", sub, f"set{s}.json")
+                if os.path.exists(f):
+                    for e in json.load(open(f)):
+                        n_rare += 1
+                        if kind == "K":
+                            rf.write(f"K {e['set']} {e['xi']}\n")
+                        else:
+                            rf.write(f"S {e['set']} {e['xi']} {e['msg']} {e['rnd']}\n")
     # reference digests
     exe, _ = chk.build_vcheck("plain")
-    p = subprocess.run([exe, "featref", str(seed), str(cases)], stdout=subprocess.PIPE, stderr=subprocess.PIPE, text=True, env=env0)
+    p = subprocess.run([exe, "featref", str(seed), str(cases), rare_path], stdout=subprocess.PIPE, stderr=subprocess.PIPE, text=True, env=env0)
     if p.returncode != 0:
         chk.inconclusive("vcheck featref failed")
     ref = parse(p.stdout)
@@ -68,7 +82,7 @@ def main(chk, pid, tier, seed, replay):
         if b.returncode != 0:
             return (tuple(feat), prof, "build_failed", b.stdout[-3000:])
         binp = os.path.join(env["CARGO_TARGET_DIR"], "debug" if prof == "dev" else "release", "featprobe")
-        r = subprocess.run([binp, str(seed), str(cases)], stdout=subprocess.PIPE, stderr=subprocess.STDOUT, text=True, timeout=1800)
+        r = subprocess.run([binp, str(seed), str(cases), rare_path], stdout=subprocess.PIPE, stderr=subprocess.STDOUT, text=True, timeout=1800)
         if r.returncode != 0:
             return (tuple(feat), prof, "run_failed", r.stdout[-3000:])
         return (tuple(feat), prof, "ok", r.stdout)
@@ -121,6 +135,10 @@ def main(chk, pid, tier, seed, replay):
             if bh != ref.get((s, "behave")):
                 violations.append({"sub": "feature_matrix", "key": f"behaviour_differs:set{s}", "case": case,
                                    "what": f"configuration [{label}]: API-behaviour digest of ML-DSA-{s} (derived/round-tripped key bytes, malformed-key rejection, 256-byte context handling, RNG-failure reporting, internal interface KAT, wipe on drop, signatures of a crafted extreme-t0 key) is {bh}, expected {ref.get((s, 'behave'))}"})
+            rr = got.get((s, "rare"))
+            if rr != ref.get((s, "rare")):
+                violations.append({"sub": "feature_matrix", "key": f"rare_event_digest_differs:set{s}", "case": case,
+                                   "what": f"configuration [{label}]: keys / signatures of ML-DSA-{s} on the rare-event corpus (seeds with extreme RejNTTPoly / RejBoundedPoly streams, signatures with long SampleInBall re-draw runs) give digest {rr}, the reference model gives {ref.get((s, 'rare'))}"})
             if "dudect" in feat:
                 dd = got.get((s, "dudect"))
                 if s in dud_ref and dud_ref[s] != dd:
@@ -167,7 +185,7 @@ def main(chk, pid, tier, seed, replay):
         "assumptions": ["builds use the host target plus one core-only (-Zbuild-std=core) build of the library for the two extreme configurations; other targets are not built",
                         "warnings are denied by the crate's own #![deny(warnings, dead_code, ...)] attributes (path dependencies are not lint-capped by cargo)",
                         "the dudect_keygen_sign_with_rng output is compared between configurations only (constant-time test mode is not a FIPS 204 function)"],
-        "notes": [f"{len(cfgs)} configurations x profiles {profiles}, {cases} KAT cases per set"],
+        "notes": [f"{len(cfgs)} configurations x profiles {profiles}, {cases} KAT cases per set, {n_rare} rare-event corpus entries"],
         "wall_s": time.time() - t0,
     }
     if replay:
